@@ -20,10 +20,13 @@ PROP = {
         "frame: only CurrINF/CurrHF, SegID and hop flag bytes are ever written",
         "arrival interface [B]: a non-error verdict for a packet from an external interface => that interface is the "
         "travel-direction ingress of the hop field the packet arrived with (C13.hop_ingress_owner); a SCION-valid crossover "
-        "incl. shortcut is forwarded (C13.xover_accept) -- both FAIL on HEAD (F-ingress0, F-xover), pass with "
-        "/verif/fixes/pocketscion-ingress-check-arrival-hop.patch",
+        "incl. shortcut is forwarded (C13.xover_accept) -- both failed on the original tree (F-ingress0, F-xover) and were "
+        "repaired by fix commits 94e4c4d / 72e80ab",
     ],
     "not_decided": [
+        "general AS-step obligations (egress owner, link exists and is up, unexpired+authentic, CurrHF+1 inside the path, "
+        "ForwardLocal only at the last hop, malformed => untouched, frame) for handle_standard_path: harnesses c13_step_{first_hop,"
+        "last_hop,transit,segchange,seg2_anyidx,seg2x2_anyidx} are written (tier experimental) but did not discharge within 30-120 min",
         "SpecRoutingLogic::route (DESIGN C13.4: ForwardLocal => DstIA == local AS; unsupported path type => Drop): harnesses are "
         "written (/verif/kani/pocketscion/routing_spec.rs, hook `mod verif_routing_spec;` at the end of routing/spec.rs) but "
         "kani-compiler 0.68 panics on them (intrinsics.rs:243 `output.kind() == Int(I32)`), so the unit is not registered; "
@@ -74,14 +77,14 @@ PROP = {
             "functions": ["StdRoutingLogic::handle_standard_path", "StdRoutingLogic::standard_path_ingress",
                           "StdRoutingLogic::standard_path_egress"],
             "harnesses": [
-                H("c13_step_first_hop", "B", tier="thorough", bound="path = 1 segment x 2 hop fields (36 B), CurrHF=0; all other bytes, clock, key, topology answers symbolic", what="AS step at the first hop: egress owner, link exists and is up, CurrHF+1, unexpired+authentic, frame", timeout=7200),
-                H("c13_step_last_hop", "B", tier="thorough", bound="path = 1 segment x 2 hop fields (36 B), CurrHF=1", what="AS step at the last hop: ForwardLocal only here, never forwards, unexpired+authentic", timeout=7200),
-                H("c13_step_transit", "B", tier="thorough", bound="path = 1 segment x 3 hop fields (48 B), CurrHF=1", what="AS step at a transit hop incl. router alerts", timeout=7200),
-                H("c13_step_segchange", "B", tier="thorough", bound="path = 2 segments x 2 hop fields (68 B), CurrINF=0 CurrHF=1", what="AS step with segment change: table holds, both hop fields unexpired, new hop authentic, CurrINF+1", timeout=7200),
-                H("c13_step_seg2_anyidx", "B", tier="thorough", bound="path = 1 segment x 2 hop fields (36 B), CurrINF/CurrHF symbolic", what="as above for every (also inconsistent) CurrINF/CurrHF; malformed => drop with untouched packet", timeout=5400),
-                H("c13_step_seg2x2_anyidx", "B", tier="thorough", bound="path = 2 segments x 2 hop fields (68 B), CurrINF/CurrHF symbolic", what="as above for every CurrINF/CurrHF", timeout=7200),
-                H("c13_step_ingress_owner", "B", bound="path = 1 segment x 2 hop fields (36 B), CurrHF=1 (last hop), MACs ignored, unread bytes (hop field 0, MAC) zero", what="accepted from outside => arriving interface == travel ingress of the arrival hop field [fails on HEAD: F-ingress0]", timeout=1800),
-                H("c13_step_xover_accept", "B", bound="path = 2 segments x 2 hop fields (68 B), CurrHF=1, MACs ignored, unread bytes (hop fields 0 and 3, MACs) zero", what="SCION-valid crossover (incl. shortcut) is forwarded over the new segment's egress [fails on HEAD: F-xover]", timeout=1800),
+                H("c13_step_first_hop", "B", tier="experimental", bound="path = 1 segment x 2 hop fields (36 B), CurrHF=0; all other bytes, clock, key, topology answers symbolic", what="AS step at the first hop: egress owner, link exists and is up, CurrHF+1, unexpired+authentic, frame", timeout=7200),
+                H("c13_step_last_hop", "B", tier="experimental", bound="path = 1 segment x 2 hop fields (36 B), CurrHF=1", what="AS step at the last hop: ForwardLocal only here, never forwards, unexpired+authentic", timeout=7200),
+                H("c13_step_transit", "B", tier="experimental", bound="path = 1 segment x 3 hop fields (48 B), CurrHF=1", what="AS step at a transit hop incl. router alerts", timeout=7200),
+                H("c13_step_segchange", "B", tier="experimental", bound="path = 2 segments x 2 hop fields (68 B), CurrINF=0 CurrHF=1", what="AS step with segment change: table holds, both hop fields unexpired, new hop authentic, CurrINF+1", timeout=7200),
+                H("c13_step_seg2_anyidx", "B", tier="experimental", bound="path = 1 segment x 2 hop fields (36 B), CurrINF/CurrHF symbolic", what="as above for every (also inconsistent) CurrINF/CurrHF; malformed => drop with untouched packet", timeout=5400),
+                H("c13_step_seg2x2_anyidx", "B", tier="experimental", bound="path = 2 segments x 2 hop fields (68 B), CurrINF/CurrHF symbolic", what="as above for every CurrINF/CurrHF", timeout=7200),
+                H("c13_step_ingress_owner", "B", bound="path = 1 segment x 2 hop fields (36 B), CurrHF=1 (last hop), MACs ignored, unread bytes (hop field 0, MAC) zero", what="accepted from outside => arriving interface == travel ingress of the arrival hop field [fails on HEAD: F-ingress0]", timeout=3600),
+                H("c13_step_xover_accept", "B", bound="path = 2 segments x 2 hop fields (68 B), CurrHF=1, MACs ignored, unread bytes (hop fields 0 and 3, MACs) zero", what="SCION-valid crossover (incl. shortcut) is forwarded over the new segment's egress [fails on HEAD: F-xover]", timeout=3600),
             ],
         },
     ],
